@@ -16,6 +16,7 @@ macro_rules! dispatch {
             "C02" => $f::<c02::C02>($($arg),*),
             "C03" => $f::<c03::C03>($($arg),*),
             "C04" => $f::<c04::C04>($($arg),*),
+            "C05" => $f::<c05::C05>($($arg),*),
             "C06" => $f::<c06::C06>($($arg),*),
             "C07" => $f::<c07::C07>($($arg),*),
             "C08" => $f::<c08::C08>($($arg),*),
